@@ -188,7 +188,7 @@ func init() {
 					}
 				}
 			}
-			for i := 0; i < t.Scale(4000, 60000); i++ {
+			for i := 0; i < t.Scale(4000, 12000); i++ {
 				in := In{Nn([]int{0, 4096, 100, 8192, 70000}[t.R.Intn(5)])}
 				total := 0
 				var frs []string
@@ -233,7 +233,7 @@ func init() {
 					}
 				}
 				ensured, consumedGen := 0, 0
-				for j, n := 0, 3+t.R.Intn(t.Scale(60, 200)); j < n; j++ {
+				for j, n := 0, 3+t.R.Intn(t.Scale(60, 100)); j < n; j++ {
 					sz := sizes[t.R.Intn(len(sizes))]
 					if t.R.Intn(2) == 0 {
 						sz = t.R.Intn(40)
